@@ -184,7 +184,9 @@ def regions(framing, g, per_read, joined, d=REQ, warm=0, first_read_tail=None, s
         n = mei_rtu_size(stream)
         if n is None or n > BOUND['rtu']:
             out.add('rtu-mei-response-size-unbounded')
-    if framing == 'rtu' and d == RSP and len(g) >= 4 and g[1] == 0x18 and (g[2] << 16) + g[3] + 6 > BOUND['rtu']:
+    # (a garbage of two or three bytes is completed to the four header bytes by the traffic that follows it)
+    h4 = g[:4] if len(g) >= 4 else (g + stream[len(g):])[:4] if stream[:len(g)] == g else g
+    if framing == 'rtu' and d == RSP and len(g) >= 2 and len(h4) >= 4 and h4[1] == 0x18 and (h4[2] << 16) + h4[3] + 6 > BOUND['rtu']:
         out.add('rtu-fifo-response-size-unbounded')
     if framing == 'ascii' and ascii_stray_colon(g):
         out.add('ascii-stray-colon')
